@@ -33,8 +33,10 @@ def concurrent_replay(mod, ctx, cases, nthreads=4, rounds=2):
                     mod.evaluate(subs[i], cases[(j + i * (n // nthreads + 1) + r) % n])
         except BaseException as e:  # noqa
             crashed.append(e)
+    from vlib import envmodes
     old = sys.getswitchinterval()
     sys.setswitchinterval(1e-6)
+    envmodes.MODES_OFF[0] = True
     try:
         ts = [threading.Thread(target=work, args=(i,), daemon=True) for i in range(nthreads)]
         for t in ts:
@@ -42,6 +44,7 @@ def concurrent_replay(mod, ctx, cases, nthreads=4, rounds=2):
         for t in ts:
             t.join(timeout=300)
     finally:
+        envmodes.MODES_OFF[0] = False
         sys.setswitchinterval(old)
         try:
             import oslo_i18n
